@@ -17,7 +17,7 @@ TEXT = {
  "C11": ("Lean theorems: reported length = what continuations can deliver, never increases, zero is definitive (known size); wrapper: completed ⇒ 0, exact hint ⇒ len − reserved, monotone.", "§7 C11"),
  "C12": ("Lean theorems: fold_combine for any commutative monoid over any partition that is a permutation of the source; loops visit the positions of their pulls with the right index; a loop returns only at the end; all positions visited once.", "§7 C12"),
  "C13": ("Lean theorems: the atomic access, counters, history and hand-out log of every step are independent of the adaptor; closures see the same values/indices; remainder identical modulo clone lines; source never dropped.", "§7 C13"),
- "C14": ("Lean theorems by decide over bounds extracted from the current source (sufficiency of Send/Sync bounds, supertraits, borrow shape of chunks), rustc accept/reject twins compiled against the current tree.", "§7 C14"),
+ "C14": ("Lean theorems by decide over bounds extracted from the current source (sufficiency of Send/Sync bounds, supertraits, borrow shape of chunks), rustc accept/reject twins compiled against the current tree; run-time clause (no two owners) by the ownership ledger over the consuming-kind case stream on the real crate, backed by the ledger theorem KS.exactly_once_all_schedules.", "§7 C14"),
  "C15": ("Lean theorems: allocation ledger of vec/array/wrapper life-cycles is balanced for every length and progress point, and under repetition. Tie: counting allocator, live = 0 on every case.", "§7 C15"),
  "C16": ("Lean theorems over the whole 64-bit domain: chunk ranges are the mathematical ones, range values never overflow, inverted ranges are empty, chunk(0) is a no-op, chunk size 0 panics; open finding H1 (counter wrap) as a kernel-checked witness with the partial theorem.", "§7 C16"),
  "C17": ("Lean theorems: every arithmetic expression of the fixed source stays inside usize on the whole domain (so overflow checks cannot fire); tie: debug and release harness binaries produce identical traces on every case, both equal to the model.", "§7 C17"),
